@@ -31,7 +31,14 @@ def _on_alarm(signum, frame):
     raise _Timeout()
 
 
-CASE_TIME_LIMIT = 20.0  # seconds of wall time one case may take before it is called a hang
+CASE_TIME_LIMIT = 20.0  # seconds of CPU time (of this process) one case may take before it is called a hang
+
+
+def _preload():
+    """import the repository before any timer is armed (an interrupted import cannot be retried)"""
+    import utils  # noqa: F401
+    import workload  # noqa: F401
+    import workload.graph  # noqa: F401
 
 
 def build(case):
@@ -241,15 +248,16 @@ def check_case(case, V, O=None, C=None):
     if C is None:
         C = {}
     cur = ["build"]
-    old = signal.signal(signal.SIGALRM, _on_alarm)
-    signal.setitimer(signal.ITIMER_REAL, CASE_TIME_LIMIT)
+    _preload()
+    old = signal.signal(signal.SIGVTALRM, _on_alarm)
+    signal.setitimer(signal.ITIMER_VIRTUAL, CASE_TIME_LIMIT)
     try:
         _check_case(case, V, O, C, cur)
     except _Timeout:
-        V(cur[0] + ".did_not_terminate", lambda: "%s: still running after %.0fs on %s" % (cur[0], CASE_TIME_LIMIT, describe(case)))
+        V(cur[0] + ".did_not_terminate", lambda: "%s: still running after %.0fs of CPU time on %s" % (cur[0], CASE_TIME_LIMIT, describe(case)))
     finally:
-        signal.setitimer(signal.ITIMER_REAL, 0)
-        signal.signal(signal.SIGALRM, old)
+        signal.setitimer(signal.ITIMER_VIRTUAL, 0)
+        signal.signal(signal.SIGVTALRM, old)
 
 
 def _check_case(case, V, O, C, cur):
@@ -264,7 +272,17 @@ def _check_case(case, V, O, C, cur):
     D = lambda: describe(case)  # noqa: E731
 
     def lab(xs):
-        return [idx.get(x, "<foreign %r>" % (x,)) for x in xs]
+        try:
+            xs = list(xs)
+        except TypeError:
+            return ["<not a sequence: %r>" % (xs,)]
+        out = []
+        for x in xs:
+            try:
+                out.append(idx.get(x, "<foreign %r>" % (x,)))
+            except TypeError:  # unhashable
+                out.append("<foreign %r>" % (x,))
+        return out
 
     def count(name, k=1):
         C[name] = C.get(name, 0) + k
@@ -734,7 +752,7 @@ def task_exhaustive(t):
             continue
         edges = adj_edges(n, adj)
         rng = random.Random("%d/%s/%d/%d/%d" % (seed, cls, n, S, k))
-        if wmode == "rotate":  # one style per DAG, rotating
+        if wmode.startswith("rotate"):  # one style per DAG, rotating
             use = [styles[k % len(styles)]]
         else:
             use = styles
@@ -742,17 +760,21 @@ def task_exhaustive(t):
             ctor, ops = styled(cls, n, edges, style, rng)
             case = {"cls": cls, "n": n, "ctor": ctor, "ops": ops, "seed": seed}
             if cls == "graph":
-                if wmode == "all" and si == 0:
+                if wmode in ("all", "rotate_all") and si == 0:
                     case["weights"] = allw  # every weighting in {1,2,3}^n
                     extra = 0xFFFFF
                 else:
                     ws = [rng.choice(allw) for _ in range(2)]
                     case["weights"] = [[1] * n] + ws
                     extra = sum(w * 3**i for i, w in enumerate(ws[0])) if n else 0
-                case["observe_bfs_from"] = si == 0
+                case["observe_bfs_from"] = si == 0 and n <= 5
+                if n >= 6:
+                    # every unordered pair once; orientation alternates with the DAG index (all relabelled
+                    # copies of the DAG are enumerated too, so both orientations of each shape occur)
+                    case["pairs"] = [(a, b) if (a + b + k) % 2 else (b, a) for a in range(n) for b in range(a + 1, n)]
                 sink.run(case, small_key(cls, n, edges, style, extra), bool(edges))
             else:
-                if wmode == "all":
+                if wmode in ("all", "rotate_all"):
                     rts = allw
                 else:
                     rts = [rng.choice(allw) for _ in range(2)]
@@ -915,14 +937,16 @@ def task_random(t):
     return sink.result()
 
 
-def plan(tier, seed):
-    """list of (function, argument) work items"""
+def plan(tier, seed, max_n=None):
+    """list of (function, argument) work items; max_n (development aid) drops exhaustive items above n"""
     a = count_dags_by_sources(6)
     for m in range(7):
         assert sum(a[m]) == A003024[m], (m, a[m])
     items = []
 
     def exhaustive(cls, n, styles, wmode, chunk):
+        if max_n is not None and n > max_n:
+            return
         if n == 0:
             items.append((task_exhaustive, (cls, 0, 0, 0, 1, styles, wmode, seed)))
             return
@@ -936,11 +960,11 @@ def plan(tier, seed):
     if tier == "quick":
         for n in range(0, 5):
             exhaustive("graph", n, STYLES, "all", 400)
-        exhaustive("graph", 5, STYLES, "all", 1500)
+        exhaustive("graph", 5, STYLES, "sample", 1500)
         for cls in ("taskgraph", "jobgraph"):
             for n in range(0, 4):
-                exhaustive(cls, n, ["ctor", "addch"], "all", 50)
-            exhaustive(cls, 4, ["ctor", "shuf"], "sample", 80)
+                exhaustive(cls, n, ["ctor", "addch"], "all", 40)
+            exhaustive(cls, 4, ["ctor", "addch"], "rotate_all", 20)
         nrand, ncyc = 40, 40
     else:
         for n in range(0, 6):
@@ -966,15 +990,16 @@ def _dispatch(item):
 
 
 def main():
-    args = parse_args()
+    args = parse_args(lambda ap: ap.add_argument("--max-n", type=int, default=None, help="development aid: cap n of the exhaustive part"))
     quiet_logging()
     tier = "thorough" if args.tier == "thorough" else "quick"
     if tier == "quick":
         bound = (
             "Graph: every labelled DAG on n<=5 nodes (1+1+3+25+543+29281), each built 5 ways (nodes then edges ascending / "
-            "descending / constructor mapping / add_node(node,*children) in reverse order / seeded shuffle); weights: all of {1,2,3}^n "
-            "for n<=4, default + unit + 2 sampled weightings per build for n=5 (sampled, not exhaustive). TaskGraph and JobGraph "
-            "(real Task/Job objects): every labelled DAG on n<=3 with all runtimes {1,2,3}^n, n=4 with 2 sampled runtime vectors, 2 builds. "
+            "descending / constructor mapping / add_node(node,*children) in reverse order / seeded shuffle); weights: for n<=4 default + every "
+            "weighting in {1,2,3}^n on the first build and default + unit + 2 sampled weightings on the other four; for n=5 default + unit + 2 "
+            "sampled weightings on each of the 5 builds (sampled, not exhaustive in weights; the thorough tier is). TaskGraph and JobGraph "
+            "(real Task/Job objects): every labelled DAG on n<=4 with every runtime vector in {1,2,3}^n us, built by constructor mapping and by add_task/add_job (both for n<=3, alternating per DAG at n=4). "
             "Cyclic: every digraph with self-loops on <=3 nodes, every loop-free digraph on 4 nodes, rings/back-edges up to 15 nodes, "
             "40 random DAGs (5..40 nodes) plus back edges. Random (sampled): 40 seeded DAGs with 7..40 nodes."
         )
@@ -982,7 +1007,8 @@ def main():
         bound = (
             "Graph: every labelled DAG on n<=6 nodes (3781503 at n=6); n<=5 each built 5 ways with all weights {1,2,3}^n on the first "
             "build and default + unit + 2 sampled weightings on the others; n=6 one build per DAG (style rotating) with default + unit + 2 sampled "
-            "weightings (sampled, not exhaustive in weights). TaskGraph and JobGraph (real Task/Job objects): every labelled DAG on n<=4 "
+            "weightings (sampled, not exhaustive in weights) and are_dependent on every unordered pair in one orientation (both orientations for n<=5). "
+            "TaskGraph and JobGraph (real Task/Job objects): every labelled DAG on n<=4 "
             "with all runtimes {1,2,3}^n in 2 builds, n=5 with 2 sampled runtime vectors. Cyclic: every digraph with self-loops on <=3 nodes, every "
             "loop-free digraph on 4 nodes, rings/back-edges up to 15 nodes, 400 random DAGs (5..40 nodes) plus back edges. "
             "Random (sampled): 600 seeded DAGs with 7..40 nodes."
@@ -996,7 +1022,10 @@ def main():
         ),
         bound=bound,
     )
-    items = plan(tier, args.seed)
+    items = plan(tier, args.seed, args.max_n)
+    if args.max_n is not None:
+        R.exhaustive = False
+        R.bound = "DEVELOPMENT RUN capped at n<=%d; " % args.max_n + R.bound
     # big items first for better packing
     nproc = min(16, os.cpu_count() or 1)
     viol, obs = {}, {}
